@@ -75,6 +75,33 @@ def check(case) -> list[Fail]:
     )
     if not ok:
         fails.append(Fail("load", k, f"LoadConst {lop!r} for constant of type {want_t}"[:300]))
+    # the same value built with one-shot iterables where the API takes Iterable[...]
+    from vlib import interp
+
+    interp.ONE_SHOT[0] = True
+    try:
+        x2 = mk_value(v)
+    finally:
+        interp.ONE_SHOT[0] = False
+    if dump(x2._to_serial_root()) != e or dump(x2.type_()._to_serial_root()) != got_t:
+        fails.append(Fail("iterable-arguments", k, "value built from one-shot iterables differs from the one built from lists"))
+    # std constants are plain (non-frozen) dataclasses: fields assigned after construction count
+    if k in ("int", "float", "string"):
+        from hugr.std.float import FloatVal
+        from hugr.std.int import IntVal
+        from hugr.std.prelude import StringVal
+
+        if k == "int":
+            y = IntVal(0, (v["w"] + 3) % 7)
+            y.v, y.width = v["v"], v["w"]
+        elif k == "float":
+            y = FloatVal(1.25)
+            y.v = v["v"]
+        else:
+            y = StringVal("other")
+            y.v = v["s"]
+        if dump(y._to_serial_root()) != e or dump(y.type_()._to_serial_root()) != got_t:
+            fails.append(Fail("field-assignment", k, f"constant re-assigned to {v} reports {dump(y.type_()._to_serial_root())} / {dump(y._to_serial_root())}"[:300]))
     return fails
 
 
